@@ -129,6 +129,8 @@ def run_harness(h, cfile, workdir, cfg, tier='quick'):
     t0 = time.time()
     incs = ['-I', os.path.join(ROOT, 'specs'), '-I', ROOT, '-I', os.path.join(ROOT, 'contracts')]
     defs = ['-D' + d for d in h['defines']] + ['-DVERIF_TIER_%s' % tier.upper()]
+    if tier == 'thorough':
+        defs += ['-D' + d for d in h.get('tdefines', [])]      # wider domain bounds in the thorough tier
     cmd = ['goto-cc'] + incs + defs + ['--function', name, cfile, '-o', gb1]
     res['cmds'].append(' '.join(cmd))
     rc, out, err, _ = sh(cmd, timeout=300, mem_gb=8)
